@@ -65,8 +65,9 @@ Proof.
   pose proof (fun o => loc_ok_visible _ _ (pl_ok t st o Hst)) as Hpl.
   pose proof (fun s => loc_ok_visible _ _ (src_loc_ok t st s Hst)) as Hsrc.
   destruct a; try discriminate Hreg; cbn [inplace_ok] in Hin;
-    unfold local, api_op; cbn [api_fp fst snd aop reads writes map forallb];
-    rewrite ?own_sloc, ?own_ownp, ?Hpl, ?Hsrc, ?Hin; reflexivity.
+    try match goal with k : src |- _ => destruct k end;
+    unfold local, api_op; cbn [api_fp key_locs src_loc fst snd aop reads writes map forallb];
+    rewrite ?own_sloc, ?own_ownp, ?Hpl, ?Hin; reflexivity.
 Qed.
 
 Lemma api_op_respects t st a : respects (api_op t st a).
@@ -176,6 +177,21 @@ Lemma sr_inplace_all_mutators :
                     negb (writes_input 0 (compile 1 [] [ADecode (SIn 0) 0; ASamples 0 1; m 1%nat])))
           mutators = true.
 Proof. vm_compute. reflexivity. Qed.
+
+(* an init segment decoded through a SliceReader from a SHARED input may serve for decryption and encryption of
+   media the goroutine owns: the table gives such programs no write to any input (so an implementation that
+   writes the shared init, e.g. by using tenc.DefaultConstantIV as a scratch IV, contradicts the table) *)
+Definition init_sr_prog : list api :=
+  [ADecodeSR (SIn 0) 0; ADecryptInit 0 1; ADecode (SIn 1) 2; ADecryptWith 2 (SObj 1); ADecode (SIn 2) 3;
+   ADecryptWith 3 (SIn 7); ADecodeSR (SIn 3) 4; AInitProtect 4 5; ADecode (SIn 4) 6; AEncryptWith 6 5].
+
+Lemma init_sr_decrypt_safe :
+  prog_safe 1 [] init_sr_prog = true /\
+  input_ids (flat_map writes (compile 1 [] init_sr_prog)) = [] /\
+  pl 1 (final_state 1 [] init_sr_prog) 1 = Input 0 /\
+  (* whereas media decoded through a SliceReader from a shared input is written by the same operations *)
+  input_ids (flat_map writes (compile 1 [] [ADecode (SIn 0) 0; ADecryptInit 0 1; ADecodeSR (SIn 1) 2; ADecryptWith 2 (SObj 1)])) = [1%nat].
+Proof. vm_compute. repeat split. Qed.
 
 (* the side condition of the property: modifying the registry while another goroutine decodes races *)
 Definition reg_progs (t : thread) : list op :=
